@@ -4,6 +4,7 @@
 package pull
 
 import (
+	"bytes"
 	"encoding/hex"
 	"fmt"
 	"io"
@@ -25,6 +26,7 @@ type Scenario struct {
 	TruncateAt  int      `json:"truncate_at"`
 	NoRef       bool     `json:"visitor_without_stringref,omitempty"`
 	ReaderKind  int      `json:"reader_kind,omitempty"` // simkit.AsReader
+	LateFill    bool     `json:"stream_written_after_decoder_construction,omitempty"`
 }
 
 type Engine struct{}
@@ -129,6 +131,12 @@ func (Engine) Run(c *simkit.Choices, x *simkit.Ctx) *simkit.Violation {
 			if c.N(3) == 0 {
 				sc.ReaderKind = 1 + c.N(simkit.NumReaderKinds-1)
 			}
+			if sc.ReaderKind <= 1 && c.N(3) == 0 {
+				// the producer starts only after the consumer has built its
+				// decoder: nothing may be read (and found empty) at construction
+				sc.LateFill = true
+				st.Fault("stream-arrives-after-decoder-construction")
+			}
 			st.Fault("short-read")
 			if sc.EOFWithData {
 				st.Fault("eof-with-data")
@@ -138,7 +146,7 @@ func (Engine) Run(c *simkit.Choices, x *simkit.Ctx) *simkit.Violation {
 		}
 		x.Alive()
 		st.Eval(1)
-		st.Distinct(simkit.NewDigest().Bytes(data).Str(sc.Ctor).Int(sc.BufSize).Ints(sc.Reads).Int(b2i(sc.EOFWithData)).Int(sc.ReaderKind).Sum())
+		st.Distinct(simkit.NewDigest().Bytes(data).Str(sc.Ctor).Int(sc.BufSize).Ints(sc.Reads).Int(b2i(sc.EOFWithData)).Int(sc.ReaderKind).Int(b2i(sc.LateFill)).Sum())
 		if v := runPlan(cd, f, sc, data, refs, noRef, doc, truncIn, x); v != nil {
 			return v
 		}
@@ -171,10 +179,27 @@ func runPlan(cd *common.Codec, f model.Format, sc *Scenario, data []byte, refs [
 			}
 		} else {
 			rd = &simkit.Reader{Data: buf, Sizes: sc.Reads, EOFWithData: sc.EOFWithData, Clock: &x.Clock}
+			var src io.Reader
+			var late *bytes.Buffer
+			switch {
+			case sc.LateFill && sc.ReaderKind == 1:
+				late = &bytes.Buffer{} // the stream is written into it AFTER the decoder exists
+				src = late
+			case sc.LateFill && sc.ReaderKind == 0:
+				rd.Data = nil
+				src = rd
+			default:
+				src = simkit.AsReader(sc.ReaderKind, rd)
+			}
 			if sc.NoRef {
-				dec = cd.NewDecoder(simkit.AsReader(sc.ReaderKind, rd), sc.BufSize, simkit.NoRef{Visitor: t})
+				dec = cd.NewDecoder(src, sc.BufSize, simkit.NoRef{Visitor: t})
 			} else {
-				dec = cd.NewDecoder(simkit.AsReader(sc.ReaderKind, rd), sc.BufSize, t)
+				dec = cd.NewDecoder(src, sc.BufSize, t)
+			}
+			if late != nil {
+				late.Write(buf)
+			} else if sc.LateFill && sc.ReaderKind == 0 {
+				rd.Data = buf
 			}
 		}
 	}
